@@ -30,33 +30,28 @@ use tokio::sync::mpsc::{channel, Permit, Receiver, Sender};
 pub use crate::stubs::*;
 
 // ------------------------------------------------------------------------------------------------ S1
-static mut SLOT: [u64; 96] = [0; 96];
-static mut FULL: bool = false;
+// a TYPED slot: writing the PDU through a byte-array pointer makes CBMC encode every field byte-wise
+static mut SLOT: Option<(VariableID, PDU)> = None;
 pub static mut SENT: usize = 0;
 /// stub for `tokio::sync::mpsc::Permit::send`: move the value into a harness-owned slot, forget the permit
+/// (`T` is `(VariableID, PDU)` at the only instantiation; the size check guards the reinterpretation)
 pub fn permit_send_stub<'a, T>(p: Permit<'a, T>, value: T)
 where
     'a: 'a,
 {
     unsafe {
-        assert!(std::mem::size_of::<T>() <= 768);
-        assert!(!FULL, "one PDU per send_pdu call");
-        std::ptr::write(std::ptr::addr_of_mut!(SLOT) as *mut T, value);
-        FULL = true;
+        assert!(std::mem::size_of::<T>() == std::mem::size_of::<(VariableID, PDU)>());
+        assert!(SLOT.is_none(), "one PDU per send_pdu call");
+        let v: (VariableID, PDU) = std::mem::transmute_copy(&value);
+        std::ptr::write(std::ptr::addr_of_mut!(SLOT), Some(v));
         SENT += 1;
     }
+    std::mem::forget(value);
     std::mem::forget(p);
 }
 /// the PDU handed to the transport by the last `send_pdu`, if any
 pub fn take_pdu() -> Option<(VariableID, PDU)> {
-    unsafe {
-        if FULL {
-            FULL = false;
-            Some(std::ptr::read(std::ptr::addr_of!(SLOT) as *const (VariableID, PDU)))
-        } else {
-            None
-        }
-    }
+    unsafe { std::ptr::replace(std::ptr::addr_of_mut!(SLOT), None) }
 }
 pub struct Chans {
     pub tx: Sender<(VariableID, PDU)>,
